@@ -1,6 +1,6 @@
 (* C16 — Impl model of eth2/beacon/common/validator_pubkeys.go (PubkeyCache).  No proofs here.
 
-   Go objects live in an explicit heap; a handle is the id of a cache object (*PubkeyCache).  The heap is a
+   Go objects live in an explicit heap; a handle is the id of a cache object the Go pointer to a PubkeyCache.  The heap is a
    list with the NEWEST object first: allocation is `cons`, the id of an object is the number of objects
    allocated before it.  Recursion through `parent` is on fuel; `OutOfFuel` is excluded by
    CacheProofs.add_terminates / lookup lemmas (fuel = chain depth + small constant).
@@ -108,7 +108,7 @@ Definition fork_of (h t : nat) : cache := mkCache (Some h) t [] [].
 Definition append_to (c : cache) (i : nat) (p : pubkey) : cache :=
   mkCache (parent c) (trusted c) ((p, i) :: pub2idx c) (idx2pub c ++ [p]).
 
-(* func (pc *PubkeyCache) AddValidator(index, pub) (*PubkeyCache, error), parametric in the lookup used *)
+(* func (pc *PubkeyCache) AddValidator(index, pub), returning a cache pointer and an error, parametric in the lookup used *)
 Section Add.
 Variable vidx : nat -> heap -> nat -> pubkey -> outcome (option nat).
 Fixpoint add_validator_with (fuel : nat) (hp : heap) (h : nat) (i : nat) (p : pubkey) : outcome (heap * nat) :=
